@@ -98,6 +98,23 @@ def word_passes(prog, words, within=None):
     return res
 
 
+def through_result_adapters(x):
+    """Result::map / map_err / ok() / as_ref() keep the Ok-ness of their receiver: look through them to the operation itself"""
+    x = strip_casts(x)
+    n = 0
+    while isinstance(x, tuple) and x and x[0] == "call" and (x[1] or "").endswith(("Result::<T, E>::map", "Result::<T, E>::map_err", "Result::<T, E>::ok", "Result::<T, E>::as_ref", "Result::<T, E>::copied", "Result::<T, E>::inspect")) and x[2] and n < 6:
+        x = strip_casts(x[2][0])
+        while isinstance(x, tuple) and x and x[0] in ("ref",):
+            x = strip_casts(x[2])
+        n += 1
+    return x
+
+
+def _is_ok_adapter(x):
+    x = strip_casts(x)
+    return isinstance(x, tuple) and x and x[0] == "call" and (x[1] or "").endswith("Result::<T, E>::ok")
+
+
 def acquiring_edges(ctx, acq_op_at, acquirer_fns=()):
     """CFG edges whose traversal proves an acquiring transition happened.
 
@@ -118,8 +135,8 @@ def acquiring_edges(ctx, acq_op_at, acquirer_fns=()):
             continue
         for e in cfg.succ[b]:
             for f in ctx.edge_facts(e):
-                if f[0] == "variant" and f[2] == "Ok":
-                    x = strip_casts(f[1])
+                if (f[0] == "variant" and f[2] == "Ok") or (f[0] == "variant" and f[2] == "Some" and _is_ok_adapter(f[1])):
+                    x = through_result_adapters(f[1])
                     if isinstance(x, tuple) and x[0] == "call" and acq_op_at.get(x[3], (None,))[0] == "cas":
                         pairs.add((e.src, e.dst))
                         descr.append(f"Ok edge of CAS@bb{x[3]} (bb{e.src}->bb{e.dst})")
